@@ -419,4 +419,23 @@ theorem planEq_fixed_iff {St : Type} (seq : St → St → Bool) (st : Bool) (a b
             | true => exact absurd (eqList_length seq hq) hl
           simp [hl, eqList, hne]
 
+/-! ### `Result`: equivalence and the eq / hash contract over int and string step numbers -/
+
+theorem resultEqSN_equiv : (∀ a, resultEqSN a a = true) ∧ (∀ a b, resultEqSN a b = resultEqSN b a) ∧
+    (∀ a b c, resultEqSN a b = true → resultEqSN b c = true → resultEqSN a c = true) := by
+  refine ⟨by simp [resultEqSN, snEq], ?_, ?_⟩
+  · intro a b; simp only [resultEqSN, snEq]; rw [Bool.eq_iff_iff]; simp [eq_comm]
+  · intro a b c; simp only [resultEqSN, snEq, decide_eq_true_eq]; exact Eq.trans
+
+/-- equal `Result`s hash the same key, hence have the same hash whatever the tuple hash is -/
+theorem resultEqSN_hash (tupHash : String × StepNum → Int) (a b : StepNum) (h : resultEqSN a b = true) :
+    resultHashKey a = resultHashKey b ∧ resultHashSN tupHash a = resultHashSN tupHash b := by
+  simp [resultEqSN, snEq] at h
+  subst h
+  exact ⟨rfl, rfl⟩
+
+/-- an int and a string step number are never equal -/
+theorem resultEqSN_int_str (i : Int) (s : String) : resultEqSN (.int i) (.str s) = false := by
+  simp [resultEqSN, snEq]
+
 end MindsVerif.PyEq
